@@ -16,7 +16,7 @@
     in the quantile and idempotence are checked by the warm-start relation with an independently recomputed
     threshold; linear policies by correspondence. *)
 From Coq Require Import List ZArith Bool Arith QArith Qcanon Permutation.
-From MW Require Import Num Assoc AssocFacts Rng Par CF CFInv CFClean CFForget CFSpec Matrix Lin Warm WarmInv Nbr NbrFacts NbrIndep LshFacts Clu Tree CellFacts Mab FacadeCF FacadeArms MoreFacts NumLaws CFAlg Sim Extra QcInst OrderFacts ExpIrrel LinInv FacadeLin LpInv NbrInv CluTreeInv FacadeAll ToyFacts C09All C10All LinForget LinSim MatrixFacts GaussJordan LinSpec NbrIndepGen CluIndep C17Lin WarmIdem.
+From MW Require Import Num Assoc AssocFacts Rng Par CF CFInv CFClean CFForget CFSpec Matrix Lin Warm WarmInv Nbr NbrFacts NbrIndep LshFacts Clu Tree CellFacts Mab FacadeCF FacadeArms MoreFacts NumLaws CFAlg Sim Extra QcInst OrderFacts ExpIrrel LinInv FacadeLin LpInv NbrInv CluTreeInv FacadeAll ToyFacts C09All C10All LinForget LinSim MatrixFacts GaussJordan LinSpec NbrIndepGen CluIndep C17Lin WarmIdem C14More LshScale TreeLeaf Rename PopSpec CopyFacts StatFacts CluBatch LinWarm.
 Import ListNotations.
 
 Theorem C13_pairs_are_cold_arm_trained_donor_within_threshold :
@@ -99,5 +99,25 @@ Theorem C13_invariant_survives_warm_start_linear :
   lin_keys_ok s -> lin_warm_start N aeqb s g keys raw q = Some s' -> lin_keys_ok s'.
 Proof. exact @lin_warm_start_keys_ok. Qed.
 Print Assumptions C13_invariant_survives_warm_start_linear.
+
+Theorem C13_linear_only_cold_arms_are_touched :
+  forall (R A G : Type) (N : Num R) (aeqb : A -> A -> bool),
+  (forall x y : A, aeqb x y = true <-> x = y) ->
+  forall (s s' : (@lin R A G)) (g : G) (keys : list A) (raw : A -> A -> R) (q : R) (a : A),
+  lin_warm_start N aeqb s g keys raw q = Some s' ->
+  ~ In a (lin_cold_arms aeqb s) ->
+  aget aeqb (l_models s') a = aget aeqb (l_models s) a /\
+  aget aeqb (l_status s') a = aget aeqb (l_status s) a.
+Proof. exact @lin_warm_start_only_touches_cold_arms. Qed.
+Print Assumptions C13_linear_only_cold_arms_are_touched.
+
+Theorem C13_linear_pairs_are_cold_arm_trained_donor_within_threshold :
+  forall (R A G : Type) (N : Num R) (aeqb : A -> A -> bool) (s : (@lin R A G)) (dt : list (A * list (A * R)))
+    (thr : R) (c w : A),
+  In (c, w) (cold_to_warm_gen N aeqb (lin_trained_arms aeqb s) (lin_cold_arms aeqb s) dt thr) ->
+  In c (lin_cold_arms aeqb s) /\
+  In w (lin_trained_arms aeqb s) /\ leb N (dist_lookup N aeqb dt c w) thr = true.
+Proof. exact @lin_warm_pairs_sound. Qed.
+Print Assumptions C13_linear_pairs_are_cold_arm_trained_donor_within_threshold.
 
 
